@@ -118,6 +118,17 @@ def check(ctx):
     rel_ = find("result = result.iloc[:, M_o]", ag)
     ok = len(rel_) == 1 and unparse(rel_[0][1]["M_o"]) == "order" and bool(find("result.columns = columns", ag)) and "reconstruct_func" in unparse(ag)
     ctx.ob("TAB.relabel-order", ag, "named aggregation: result.iloc[:, order] with the order returned by reconstruct_func, then the new column names", ok, "" if ok else f"columns are permuted by {unparse(rel_[0][1]['M_o']) if rel_ else None}: with interleaved input columns the output names land on the wrong aggregates")
+    # ---------------- groupby cumulative: the carry pass groups exactly like the scan pass (dropna / observed)
+    gcl = ctx.model.klass("dask/dataframe/dask_expr/_groupby.py", "GroupByCumulative").own_methods["_lower"]
+    dicts = [d for d in ast.walk(gcl) if isinstance(d, ast.Dict) and any(isinstance(k, ast.Constant) and k.value == "chunk" for k in d.keys if k is not None)]
+    ok = bool(dicts) and all(any(k is None and unparse(v) == "dropna" for k, v in zip(d.keys, d.values)) for d in dicts)
+    ctx.ob("SIB.groupby-cumulative.dropna", gcl, "every helper step of GroupByCumulative (scan, last) receives **dropna", ok, "" if ok else "the carry step groups with the default dropna: with dropna=False the NA group restarts in every partition")
+    # ---------------- _var_chunk squares its input in place: it must work on a copy
+    vc = ctx.model.module("dask/dataframe/groupby.py").func("_var_chunk")
+    cp = find("df = df.copy()", vc)
+    sq = [n for n in ast.walk(vc) if isinstance(n, (ast.Assign, ast.AugAssign)) and "df[cols]" in unparse(n.targets[0] if isinstance(n, ast.Assign) else n.target)]
+    ok = len(cp) == 1 and (not sq or all(dominates(vc, cp[0][0], s_) for s_ in sq))
+    ctx.ob("EFFECT.no-input-mutation", vc, "_var_chunk copies the partition before modifying columns", ok, "" if ok else "the shared partition object is squared in place: anything else computed from the same partition in one graph sees squared values")
 
 
 VARIANTS = [
